@@ -32,14 +32,16 @@ theorem direct_sites_returned :
     pkgAllReturned "zsonio" [] = true ∧ pkgAllReturned "zjsonio" [] = true ∧
     pkgAllReturned "zeekio" [] = true ∧ pkgAllReturned "textio" [] = true ∧
     pkgAllReturned "jsonio" [] = true ∧ pkgAllReturned "tableio" [] = true ∧
-    pkgAllReturned "vng" [] = true ∧ pkgAllReturned "lakedata" ["Abort"] = true ∧
+    pkgAllReturned "vng" [] = true ∧ pkgAllReturned "vngenc" [] = true ∧
+    pkgAllReturned "lakedata" ["Abort"] = true ∧
     pkgAllReturned "csvio" [] = true ∧ pkgAllReturned "bufwriter" [] = true := by decide
 
 /-- The table is not vacuous: every package contributes sites. -/
 theorem sites_present :
     pkgSiteCount "zngio" ≥ 15 ∧ pkgSiteCount "zsonio" ≥ 2 ∧ pkgSiteCount "zjsonio" ≥ 2 ∧
     pkgSiteCount "zeekio" ≥ 2 ∧ pkgSiteCount "textio" ≥ 2 ∧ pkgSiteCount "jsonio" ≥ 1 ∧
-    pkgSiteCount "tableio" ≥ 9 ∧ pkgSiteCount "vng" ≥ 3 ∧ pkgSiteCount "lakedata" ≥ 9 ∧
+    pkgSiteCount "tableio" ≥ 9 ∧ pkgSiteCount "vng" ≥ 3 ∧ pkgSiteCount "vngenc" ≥ 14 ∧
+    pkgSiteCount "lakedata" ≥ 9 ∧
     pkgSiteCount "csvio" ≥ 4 ∧ pkgSiteCount "bufwriter" ≥ 1 := by decide
 
 /-! ### Direct (straight-line) writers -/
